@@ -572,8 +572,12 @@ void VariableManager::process_variable_declaration(const ASTNode *node) {
                 // value フィールドに文字列のコピーのポインタを保存（generic
                 // 型で使用される） strdup
                 // で永続的なコピーを作成（メモリリーク注意: 将来 GC が必要）
-                var.value =
-                    reinterpret_cast<int64_t>(strdup(var.str_value.c_str()));
+                // 空文字列にはコピーを作らない: 「str_value が空で value != 0」は
+                // malloc で確保した生バッファを意味する
+                var.value = var.str_value.empty()
+                                ? 0
+                                : reinterpret_cast<int64_t>(
+                                      strdup(var.str_value.c_str()));
                 var.is_assigned = true;
             } else if (var.type == TYPE_STRING &&
                        init_node->node_type == ASTNodeType::AST_ARRAY_REF) {
@@ -1516,8 +1520,12 @@ void VariableManager::process_variable_declaration(const ASTNode *node) {
             var.str_value = node->init_expr->str_value;
             // value フィールドに文字列のコピーのポインタを保存（generic
             // 型で使用される）
-            var.value =
-                reinterpret_cast<int64_t>(strdup(var.str_value.c_str()));
+            // 空文字列にはコピーを作らない: 「str_value が空で value != 0」は
+            // malloc で確保した生バッファを意味する
+            var.value = var.str_value.empty()
+                            ? 0
+                            : reinterpret_cast<int64_t>(
+                                  strdup(var.str_value.c_str()));
             var.is_assigned = true;
         } else if (var.is_array && !var.is_assigned &&
                    node->init_expr->node_type == ASTNodeType::AST_FUNC_CALL) {
